@@ -16,7 +16,6 @@ type cellDef struct {
 	name      string
 	wrapper   bool // one of the property's nesting forms (counts toward depth 5)
 	needsExit bool // the position constrains the value: only used where X never completes normally
-	needsBlk  bool // return-from.value / return.value: needs an enclosing block
 }
 
 var cellDefs = []cellDef{
@@ -446,19 +445,6 @@ func chainProgram(cells []string, k exitKind, at int) (src string, ok bool) {
 				names = append(names, n)
 			}
 		}
-		def := cellByName[layers[i].Cell]
-		if def.needsBlk {
-			want := ""
-			for _, n := range names {
-				if (formOf(def.name) == "return") == (n == "nil") {
-					want = n
-				}
-			}
-			if want == "" {
-				return "", false
-			}
-			layers[i].Name = want
-		}
 		fill(&layers[i], i, b, names)
 	}
 	return render(b, layers, k.exit), true
@@ -559,7 +545,7 @@ func (g *rgen) sideTree(depth int) *sx {
 
 // usable tells whether cell d may sit between an exit of kind k and its target.
 func (g *rgen) usable(d *cellDef, k string, exits bool) bool {
-	if d.needsBlk || (formOf(d.name) == "defun" && k != "error" && k != "normal") {
+	if formOf(d.name) == "defun" && k != "error" && k != "normal" {
 		return false
 	}
 	if g.noIE && formOf(d.name) == "ignore-errors" {
